@@ -57,6 +57,11 @@ def cases(tier, seed):
                                         p={"icode_prob": 0.2, "variant_prob": 0.25, "na_prob": 0.25, "waters": [0, 2, 4]}):
         spec["kind"] = "run"
         out.append(spec)
+    # long stretches / whole chains of the real proteins
+    for spec in workload.long_cases(seed, 7 if tier == "quick" else 420, opts_fn=opts,
+                                    long_max=150 if tier == "quick" else 400):
+        spec["kind"] = "run"
+        out.append(spec)
     nt = 60 if tier == "quick" else 10000
     rng = random.Random(seed + 99)
     for i in range(nt):
